@@ -276,15 +276,3 @@ func init() {
 		return boolVal(r)
 	})
 }
-
-// NewDefaultJWKSFetcherStrategy builds a ristretto cache and a retrying HTTP client: environment.
-// The result is an opaque object (never resolved by a harness: harnesses that fetch inject their own strategy).
-type jwksFetcherTag struct{ n int }
-
-func init() {
-	// (the only override of a function of /repo: its body is construction of third-party objects)
-	overrideIntrinsics["github.com/ory/fosite.NewDefaultJWKSFetcherStrategy"] = func(fr *frame, a []value) value {
-		fr.i.m.ex.noteIntrinsic("override github.com/ory/fosite.NewDefaultJWKSFetcherStrategy")
-		return iface{t: nativeAnyT, v: native{&jwksFetcherTag{}}}
-	}
-}
